@@ -19,25 +19,32 @@ def m_len(eng, x):
 
 
 def m_isinstance(eng, x, t):
+    def sub(native, t):
+        # the native type's own subclass relation decides (abstract base classes included: isinstance("x", Sequence))
+        try:
+            return issubclass(native, t)
+        except TypeError:
+            return isinstance(native(), t)
+
     def one(t):
         if isinstance(x, (SymBV, SymInt)):
-            return t in (int, object) or (isinstance(t, type) and issubclass(int, t) and t is not bool)
+            return sub(int, t)
         if isinstance(x, SymBool):
-            return t in (bool, int, object)
+            return sub(bool, t)
         if isinstance(x, SymFloat):
-            return t in (float, object)
+            return sub(float, t)
         if isinstance(x, (SymStr, LazyStr)):
-            return t in (str, object)
+            return sub(str, t)
         if isinstance(x, SymBytes):
-            return t in ((bytearray,) if x.mutable else (bytes,)) or t is object
+            return sub(bytearray if x.mutable else bytes, t)
         if isinstance(x, Opaque):
             return t is object
         if isinstance(x, SymDT):
             import datetime
-            return t in (datetime.datetime, datetime.date, object)
+            return issubclass(datetime.datetime, t)
         if isinstance(x, SymTD):
             import datetime
-            return t in (datetime.timedelta, object)
+            return issubclass(datetime.timedelta, t)
         return isinstance(x, t)
     if isinstance(t, tuple):
         return any(one(k) for k in t)
